@@ -15,6 +15,7 @@ package circl_test
 // no reference model. sign/bls is covered in harness/sign/bls.
 
 import (
+	"encoding"
 	"fmt"
 	"math/big"
 	"sort"
@@ -142,6 +143,12 @@ func c02SchemeSubject(sch sign.Scheme) *kit.Subject {
 			s.WrapSign = c02WrapSigner(eddsa.Ed448)
 		}
 	}
+	// public keys that are objects with UnmarshalBinary (Dilithium, ML-DSA, the hybrids) get the reuse history
+	if pk0, _ := sch.DeriveKey(make([]byte, sch.SeedSize())); pk0 != nil {
+		if _, ok := pk0.(encoding.BinaryUnmarshaler); ok {
+			s.DecodePKInto = func(pk interface{}, b []byte) error { return pk.(encoding.BinaryUnmarshaler).UnmarshalBinary(b) }
+		}
+	}
 	if f.edPK >= 0 {
 		s.PKCoords, s.SigCoords = c02EdCoords(f.edPK, f.is448), c02EdCoords(f.edR, f.is448)
 	}
@@ -202,6 +209,7 @@ func c02Floors(r *verifmc.Run, subjects int, scalars, hints, ctx bool) {
 		r.RequireCounter("alt_sig-scalar", int64(subjects))
 	}
 	if hints {
+		r.RequireCounter("history_pk_reuse", int64(subjects))
 		r.RequireCounter("alt_sig-hint", int64(subjects))
 		r.RequireCounter("hint_duplicate_index_cases", int64(subjects))
 	}
@@ -210,6 +218,7 @@ func c02Floors(r *verifmc.Run, subjects int, scalars, hints, ctx bool) {
 		r.RequireCounter("alt_badctx-verify", int64(subjects))
 		r.RequireCounter("badctx_sign_refused", int64(subjects))
 		r.RequireCounter("alt_longctx-related", int64(4*subjects))
+		r.RequireCounter("alt_ctx-neighbour", int64(30*subjects))
 		r.RequireCounter("longctx_sign_refused", int64(4*subjects))
 	}
 }
